@@ -16,7 +16,7 @@ TRUSTED = [
     "hand-written models coq/Model/Trainer.v (trainer/base.py is_trainable/run, threads/training.py on_tick) over coq/Model/DataPipe.v",
     "harness/impl/c13.py: recording Trainer / DataBuffer / TrainingModel subclasses; pamiq_core.time.time scripted; TrainingThread.on_tick called directly",
 ]
-ASSUMPTIONS = ["the boundary 'timestamp == previous training time' is a policy parameter probed on the implementation",
+ASSUMPTIONS = ["the agreement test uses the boundary probed on the implementation; the oracle itself demands that a sample stamped exactly at the previous training time is not counted as new",
                "thread-level behaviour (pause, hooks) of the training thread is covered by C01/C09, not here"]
 
 
